@@ -57,6 +57,8 @@ type frame struct {
 	cutSt  map[*vnode]*State
 	panics []*State
 	retGhost []Val
+	bases    map[string][]baseRef
+	unstable map[string]bool
 }
 
 func findLoops(fn *ssa.Function, c *Contract) ([]*loopInfo, map[*ssa.BasicBlock]*loopInfo) {
@@ -418,6 +420,7 @@ func (f *frame) specCtx(st *State, old *State) *specCtx {
 
 func (f *frame) checkInvariants(l *loopInfo, st *State, kind string) {
 	vc := f.vc
+	bindHeaderNames(st, l.header)
 	sc := f.specCtx(st, vc.oldState)
 	sc.locals = st.names
 	f.bindParams(sc)
@@ -492,7 +495,28 @@ func (f *frame) cutHeader(n *vnode, st *State) {
 		vc.havocAll(st)
 	} else {
 		for _, h := range hv {
+			before := vc.heapGet(st, h)
 			vc.havocHeapVar(st, h)
+			if f.unstable[h] {
+				continue
+			}
+			// automatic loop frame: objects allocated before the loop that the
+			// body never writes through are unchanged
+			var excl []string
+			ok := true
+			for _, b := range f.bases[h] {
+				r, good := vc.refOfBase(st, b.v, b.isSlice)
+				if !good {
+					ok = false
+					break
+				}
+				excl = append(excl, "(not (= r "+r+"))")
+			}
+			if !ok {
+				continue
+			}
+			conds := append([]string{"(< (rid r) " + st.alloc + ")"}, excl...)
+			vc.assume("(forall ((r Ref)) (! (=> " + and(conds...) + " (= (select " + vc.heapGet(st, h) + " r) (select " + before + " r))) :pattern ((select " + vc.heapGet(st, h) + " r))))")
 		}
 		if allocs {
 			a := vc.fresh("alloc")
@@ -502,6 +526,7 @@ func (f *frame) cutHeader(n *vnode, st *State) {
 		}
 	}
 	// 3. assume invariants
+	bindHeaderNames(st, l.header)
 	sc := f.specCtx(st, vc.oldState)
 	sc.locals = st.names
 	f.bindParams(sc)
@@ -568,9 +593,23 @@ func bvBits(sort string) int {
 }
 
 // loopWrites statically collects the heap variables a loop body may write.
+type baseRef struct {
+	v       ssa.Value
+	isSlice bool
+}
+
 func (f *frame) loopWrites(l *loopInfo) (hvs []string, all bool, allocs bool) {
 	vc := f.vc
 	set := map[string]bool{}
+	f.bases = map[string][]baseRef{}
+	f.unstable = map[string]bool{}
+	addBase := func(h string, v ssa.Value, isSlice bool, top bool) {
+		if !top || v == nil || !stableAt(v, l) {
+			f.unstable[h] = true
+			return
+		}
+		f.bases[h] = append(f.bases[h], baseRef{v, isSlice})
+	}
 	var visitFn func(fn *ssa.Function, blocks func(*ssa.BasicBlock) bool, depth int)
 	visitFn = func(fn *ssa.Function, inBody func(*ssa.BasicBlock) bool, depth int) {
 		if depth > 6 {
@@ -584,8 +623,17 @@ func (f *frame) loopWrites(l *loopInfo) (hvs []string, all bool, allocs bool) {
 			for _, in := range b.Instrs {
 				switch in := in.(type) {
 				case *ssa.Store:
-					for _, h := range vc.staticHeapVars(in.Addr, true) {
+					hs := vc.staticHeapVars(in.Addr, true)
+					for _, h := range hs {
 						set[h] = true
+					}
+					if len(hs) == 1 {
+						b, isSl := storeRoot(in.Addr)
+						addBase(hs[0], b, isSl, depth == 0)
+					} else {
+						for _, h := range hs {
+							f.unstable[h] = true
+						}
 					}
 				case *ssa.Alloc:
 					allocs = true
@@ -608,9 +656,13 @@ func (f *frame) loopWrites(l *loopInfo) (hvs []string, all bool, allocs bool) {
 						switch bi.Name() {
 						case "append":
 							allocs = true
-							set[vc.arrHV(com.Args[0].Type().Underlying().(*types.Slice).Elem())] = true
+							h := vc.arrHV(com.Args[0].Type().Underlying().(*types.Slice).Elem())
+							set[h] = true
+							addBase(h, com.Args[0], true, depth == 0)
 						case "copy":
-							set[vc.arrHV(com.Args[0].Type().Underlying().(*types.Slice).Elem())] = true
+							h := vc.arrHV(com.Args[0].Type().Underlying().(*types.Slice).Elem())
+							set[h] = true
+							addBase(h, com.Args[0], true, depth == 0)
 						case "delete", "clear":
 							all = true
 						}
@@ -644,6 +696,7 @@ func (f *frame) loopWrites(l *loopInfo) (hvs []string, all bool, allocs bool) {
 						}
 						for _, h := range hs {
 							set[h] = true
+							f.unstable[h] = true
 						}
 					case callee.Blocks != nil && (cc != nil && cc.Inline || vc.eng.autoInline(callee)):
 						visitFn(callee, func(*ssa.BasicBlock) bool { return true }, depth+1)
@@ -1038,4 +1091,98 @@ func (f *frame) ghostResults(st *State) Val {
 		out = append(out, vc.define("gh", v))
 	}
 	return out
+}
+
+// bindHeaderNames binds source names that refer to phis of a loop header
+// (range loops name their phi "rangeint.iter"; the source name only appears
+// in a DebugRef inside the header block).
+func bindHeaderNames(st *State, header *ssa.BasicBlock) {
+	for _, in := range header.Instrs {
+		d, ok := in.(*ssa.DebugRef)
+		if !ok || d.IsAddr {
+			continue
+		}
+		phi, ok := d.X.(*ssa.Phi)
+		if !ok || phi.Block() != header {
+			continue
+		}
+		if id, ok := d.Expr.(*ast.Ident); ok {
+			if _, isVar := d.Object().(*types.Var); isVar {
+				if v, ok := st.env[phi]; ok {
+					st.names[id.Name] = v
+				}
+			}
+		}
+	}
+}
+
+// storeRoot finds the value whose reference designates the heap object a
+// store through addr writes (mirrors staticHeapVars).
+func storeRoot(addr ssa.Value) (ssa.Value, bool) {
+	switch a := addr.(type) {
+	case *ssa.IndexAddr:
+		switch a.X.Type().Underlying().(type) {
+		case *types.Slice:
+			return a.X, true
+		case *types.Pointer:
+			if interior(a.X) {
+				return storeRoot(a.X)
+			}
+			return a.X, false
+		}
+	case *ssa.FieldAddr:
+		if interior(a.X) {
+			return storeRoot(a.X)
+		}
+		return a.X, false
+	}
+	return addr, false
+}
+
+// stableAt: the value is available (and the same) at the header of loop l.
+func stableAt(v ssa.Value, l *loopInfo) bool {
+	switch x := v.(type) {
+	case *ssa.Parameter, *ssa.Global, *ssa.Const, *ssa.FreeVar:
+		return true
+	case *ssa.FieldAddr:
+		if in, ok := v.(ssa.Instruction); ok && !l.body[in.Block()] {
+			return true
+		}
+		return stableAt(x.X, l)
+	case ssa.Instruction:
+		return !l.body[x.Block()]
+	}
+	return false
+}
+
+// refOfBase evaluates the object reference designated by a stable base value.
+func (vc *VC) refOfBase(st *State, v ssa.Value, isSlice bool) (string, bool) {
+	if x, ok := st.env[v]; ok {
+		t, ok := x.(*Term)
+		if !ok {
+			return "", false
+		}
+		if isSlice {
+			return "(s-ref " + t.S + ")", true
+		}
+		return t.S, true
+	}
+	switch a := v.(type) {
+	case *ssa.Global:
+		return vc.global(a).S, true
+	case *ssa.FieldAddr:
+		r, ok := vc.refOfBase(st, a.X, false)
+		if !ok {
+			return "", false
+		}
+		s, _ := structOf(a.X.Type().Underlying().(*types.Pointer).Elem())
+		ft := s.Field(a.Field).Type()
+		_, isS := structOf(ft)
+		_, isA := arrayOf(ft)
+		if isS || isA {
+			return subRef(r, a.Field), true
+		}
+		return "", false
+	}
+	return "", false
 }
